@@ -709,6 +709,7 @@ class Ctx:
         self.notes: List[str] = []
         self.untriaged: List[str] = []
         self.extra: Dict[str, object] = {}
+        self.anchor_errors: List[AnchorError] = []
 
     def _where(self, fi: Optional[FuncInfo], node) -> str:
         if fi is not None:
@@ -732,6 +733,16 @@ class Ctx:
 
     def note(self, s: str):
         self.notes.append(s)
+
+    def section(self, fn, *args, **kw):
+        """run one independent group of rule instances; a vanished anchor / undecided shape inside it is
+        recorded (the run ends as ANALYSIS-ERROR unless a violation is found elsewhere) instead of hiding
+        the verdicts of the other groups"""
+        try:
+            return fn(*args, **kw)
+        except AnchorError as e:
+            self.anchor_errors.append(e)
+            return None
 
     @property
     def failures(self) -> List[Obligation]:
